@@ -10,7 +10,11 @@ Open Scope Z_scope.
    mk12f: Greedy on genuine binary64 weights (bit patterns): fractions, mixed magnitudes, sums that round. *)
 Inductive case12 :=
 | mk12 (c_alg : N) (c_ws : list Z) (c_k : nat) (c_p0 : list N) (c_impl : impl_res) (c_implf : option impl_res)
-| mk12f (c_wbits : list N) (c_k : nat) (c_p0 : list N) (c_impl : impl_res).
+| mk12f (c_wbits : list N) (c_k : nat) (c_p0 : list N) (c_impl : impl_res)
+(* KarmarkarKarp on binary64 weights through coupe::Real that are NOT exactly scaled integers (e.g. k * 1e-300):
+   there is no float model of KarmarkarKarp; judged by the checker only, in exact arithmetic on the values,
+   up to accumulated rounding (gap <= largest weight + total / 2^45) *)
+| mk12kf (c_wbits : list N) (c_k : nat) (c_p0 : list N) (c_impl : impl_res).
 
 Definition res_eqb (a b : res (list N)) : bool :=
   match a, b with
@@ -95,10 +99,32 @@ Definition eval12i (c_alg : N) (ws : list Z) (k : nat) (p0 : list N) (c_impl : i
              | IErr 1 _ _ => 1 | IErr _ _ _ => 2 | IPanic => 3 | IHang => 4 end%N in
   {| corr_ok := corr1 && corr2 && corr3; prop_ok := prop; cls := cls |}.
 
+Definition eval12kf (wbits : list N) (k : nat) (p0 : list N) (impl : impl_res) : verdict :=
+  let ws := map (fun b => f64_of_bits b) wbits in
+  let len_ok := Nat.eqb (length ws) (length p0) in
+  let in_contract := len_ok && forallb f64_weight_ok ws && Nat.leb 1 k in
+  let prop :=
+    if in_contract then
+      match impl, exact_ints ws with
+      | IOk p, Some zs =>
+        Nat.eqb (length p) (length zs) && ids_below k p
+        && (gap (loads zs p k) <=? maxl zs + sumZ zs / 2 ^ 45)
+      | _, _ => false
+      end
+    else if negb len_ok then
+      match impl with
+      | IErr 1 a b => (a =? N.of_nat (length p0))%N && (b =? N.of_nat (length ws))%N
+      | _ => false
+      end
+    else true in
+  let cls := match impl with IOk _ => 10 | IErr 1 _ _ => 1 | IErr _ _ _ => 2 | IPanic => 3 | IHang => 4 end%N in
+  {| corr_ok := true; prop_ok := prop; cls := cls |}.
+
 Definition eval12 (c : case12) : verdict :=
   match c with
   | mk12 a ws k p0 i f => eval12i a ws k p0 i f
   | mk12f wb k p0 i => eval12f wb k p0 i
+  | mk12kf wb k p0 i => eval12kf wb k p0 i
   end.
 
 Definition run12 (cs : list case12) := report (map eval12 cs).
